@@ -171,7 +171,7 @@ func runC19(c *core.Ctx, r *core.Result) {
 		listDepth = 5
 		p = plan{fullDepth: 4, coreDepth: 6, strDepth: 2, pairDepth: 0, alphabet: tm.REG}
 	}
-	r.Bounds = fmt.Sprintf("list space: %d leaves x %d list-relevant constructors to depth %d with every assignment of {\"\",A,B} to hint/detail/url/key slots; plus %s; local and after one hop", len(c19Leaves), len(c19Ops), listDepth, p)
+	r.Bounds = fmt.Sprintf("list space: %d leaves x %d list-relevant constructors to depth %d with every assignment of {\"\",A,B} to hint/detail/url/key slots; plus every sequence (up to renaming) of <=7 (thorough 8) WithHint layers over 6 texts; plus %s; local and after one hop", len(c19Leaves), len(c19Ops), listDepth, p)
 	r.Rule = "state = (term, raw strings, local|after hop); non-trivial = model has >=2 list entries in total or a repeated/empty text"
 	var lops, wops []*tm.Op
 	for _, n := range c19Leaves {
@@ -227,5 +227,66 @@ func runC19(c *core.Ctx, r *core.Result) {
 			return
 		}
 	}
+	// long chains of hints (and details): every sequence of up to maxLen
+	// WithHint layers over an alphabet of 6 texts, so that de-duplication
+	// is exercised with up to 6 distinct texts in every order of first
+	// occurrence and recurrence
+	maxLen := 7
+	if c.Thorough() {
+		maxLen = 8
+	}
+	alpha := []string{"a", "b", "c", "d", "e", "f"}
+	var idx int64 = 1 << 41
+	for n := 1; n <= maxLen; n++ {
+		total := 1
+		for i := 0; i < n; i++ {
+			total *= len(alpha)
+		}
+		for m := 0; m < total; m++ {
+			idx++
+			if !c.Mine(idx) {
+				continue
+			}
+			if m&0xfff == 0 && c.Expired() {
+				r.Cap("soft deadline in hint chains")
+				return
+			}
+			// canonical sequences only: texts appear in alphabetical order of
+			// first occurrence (renaming symmetry)
+			x, seenMax, canon := m, -1, true
+			seq := make([]int, n)
+			for i := 0; i < n; i++ {
+				seq[i] = x % len(alpha)
+				x /= len(alpha)
+				if seq[i] > seenMax+1 {
+					canon = false
+					break
+				}
+				if seq[i] > seenMax {
+					seenMax = seq[i]
+				}
+			}
+			if !canon {
+				continue
+			}
+			names := []string{"GoNew"}
+			for i := 0; i < n; i++ {
+				if (m+i)%5 == 4 {
+					names = append(names, "WithDetail")
+				}
+				names = append(names, "WithHint")
+			}
+			t := tm.T(names...)
+			k := 0
+			for cur := t; cur != nil; cur = cur.Kid {
+				if cur.Op.Name == "WithHint" {
+					cur.S[0] = alpha[seq[n-1-k]]
+					k++
+				}
+			}
+			visit(t)
+		}
+	}
+	r.Count("hint_chain_max_len", int64(maxLen))
 	eachTerm(c, r, p, visit)
 }
